@@ -33,6 +33,37 @@ def run(ctx):
         classes[cl] = classes.get(cl, 0) + 1
         tag = 'beyond-end' if (' beyond ' in f' {cl} ' and cl.startswith('basic nth')) else e
         ctx.fail('oracle', c, impl=s, model=None, expect=tag, note=f'C16 violated ({cl}): query {q} expected {e} got {s}')
+    # a COPY of the value, made in a fresh data object with the public helper garnish_lang_traits::helpers::clone_data (what hosts use
+    # to move values between data objects), must answer every query as the original does — nested lists included
+    copies = []
+    by_id = {}
+    pick = [c for c in cases if c[0] == 'LIST' and c[2] in ('simple', 'basic')]
+    nested = [c for c in pick if c[3].count('(l') >= 2 or '(cat' in c[3]]
+    rest = [c for c in pick if c not in nested]
+    for c in (nested + rest[:: max(1, len(rest) // 1500)])[:4000 if ctx.tier == 'quick' else 40000]:
+        cc = ['LIST', 'cp' + c[1], c[2] + 'copy'] + c[3:]
+        copies.append(cc); by_id[cc[1]] = c
+    for t in ('(l (i 10) (l (i 20) (i 30)) (p (s 7) (i 40)))', '(l (l (l (i 1)) (i 2)) (p (s 7) (l (i 3) (p (s 8) (i 4)))))', '(cat (l (i 1) (l (i 2) (i 3))) (l (p (s 7) (i 4))))'):
+        for st in ('simple', 'basic'):
+            q = 'len items nth:0 nth:1 nth:2 nth:3 sym:7 sym:8 acc:0 acc:1 acc:2 accs:7'
+            o = ['LIST', f'cpo{len(copies)}', st, t, q]; cc = ['LIST', f'cpc{len(copies)}', st + 'copy', t, q]
+            copies += [o, cc]; by_id[cc[1]] = o
+    ci = vlib.run_impl(copies, 'c16copy', per_case_s=5.0)
+    ncopy = 0
+    for cc in copies:
+        if not cc[2].endswith('copy'):
+            continue
+        o = by_id[cc[1]]
+        ro = impl.get(o[1]) if o[1] in impl else ci.get(o[1])
+        rc = ci.get(cc[1])
+        ncopy += 1
+        ctx.distinct.add(('copy', cc[2], cc[3]))
+        if ro is None or ro.startswith('SETUP-ERR') or ro.startswith('BAD-CASE'):
+            continue
+        if rc != ro:
+            ctx.fail('oracle', cc, impl=rc, model=None, expect=ro, note=f'a copy of the value made with helpers::clone_data answers the queries differently from the original ({cc[2]}): {cc[3][:120]}')
+    ctx.evaluations += len(copies)
+    ctx.suites = dict(ctx.suites or {}, **{'LIST.copies (helpers::clone_data)': ncopy})
     # paths: a list applied to / accessed with a symbol list follows the keys and indexes one after the other, each step in
     # the value reached by the previous one (Apply); an index outside that value, a missing key, or a value that cannot be
     # looked into ends with unit — never an error. Independent oracle on the terms + the value-level model.
@@ -104,7 +135,7 @@ def run(ctx):
     ctx.rule = ('LIST cases: all lists up to length 4 (quick) / 5 (thorough) over item kinds {number, text, symbol, pair keyed by symbol, pair keyed by non-symbol, nested list} under three key schemes (incl. all keys congruent modulo n, 0 and u64::MAX), '
                 'random lists of 5-40 items with adversarial symbols, lists containing unit/true/false (addresses 0/1/2 on Simple), concatenations of such lists; each queried at data level (len, nth for -1..n+1, symbol look-up of every present and several absent keys, iteration) and at runtime level (access / apply by number and symbol) on both stores; '
                 'symbol-list paths into nested keyed lists (keys present / missing, indexes in and out of range of the value reached, steps into values that cannot be looked into); answers checked against an oracle computed from the item list alone and against the Lean store models; distinct = distinct (store, list).')
-    ctx.suites = {'LIST': len(cases), 'oracle_answers_checked': nq, 'oracle_failure_classes': classes, 'OP.Apply paths': npath}
+    ctx.suites = dict(ctx.suites or {}, **{'LIST': len(cases), 'oracle_answers_checked': nq, 'oracle_failure_classes': classes, 'OP.Apply paths': npath})
     for c in cases[:: max(1, len(cases) // 6)][:6]:
         ctx.sample({'case': c[2:], 'impl': (impl.get(c[1]) or '')[:240]}, cap=80)
     ctx.trusted += ['store-view hypotheses ReadableS / ReadableB of the look-up theorems; Simple address allocation incl. interning is modelled in the driver only', 'duplicate keys are outside the property']
